@@ -442,7 +442,7 @@ def register(hub, prop="C14"):
     hub.on("Dimension.is_subset", o_is_subset)
 
 
-def check_lookups(rec, fd, ds, model: LDimSet, prop="C14"):
+def check_lookups(rec, fd, ds, model: LDimSet, prop="C14", absent=()):
     """Driver-side: every public view of a set agrees with the ordered-list model."""
     M = "dimset-lookups"
     rec.event(M, sig=f"{model.letters}", cls=f"lookups|n={len(model.dims)}")
@@ -472,6 +472,21 @@ def check_lookups(rec, fd, ds, model: LDimSet, prop="C14"):
         bad("iteration", [d.letter for d in ds], list(model.letters))
     if len(set(ds.letters)) != len(ds.letters):
         bad("duplicate-letters", list(ds.letters), None)
+    for l, n in absent:
+        for key in (l, n):
+            try:
+                if key in ds:
+                    bad("absent-dimension-reported-as-member", key, None)
+                    break
+            except Exception as e:
+                bad("membership-raised", key, repr(e)[:100])
+            for f in (lambda: ds[key], lambda: ds.index(key), lambda: ds.size(key)):
+                try:
+                    f()
+                except Exception:
+                    continue
+                bad("lookup-of-absent-dimension-succeeded", key, None)
+                break
     for i, d in enumerate(model.dims):
         for key in (d[0], d[1]):
             try:
